@@ -58,7 +58,7 @@ struct Base {
     parse_exec: bool,
 }
 
-fn gen_base(r: &mut Prng) -> Base {
+fn gen_base(r: &mut Prng, big: bool) -> Base {
     let mut case = Case::new("C06");
     case.slots.push(base_ctx(r, &NAMES));
     let knobs = Knobs {
@@ -73,7 +73,7 @@ fn gen_base(r: &mut Prng) -> Base {
         dumpers: true,
     };
     let depth = knobs.max_depth;
-    let nst = r.usize(7);
+    let nst = r.usize(if big { 12 } else { 7 });
     let with_dumper = r.chance(2, 5);
     let mut stmts = {
         let mut g = Gen::new(r, &mut case, knobs, 0);
@@ -150,9 +150,9 @@ impl Prop for C06 {
         40000 * tier.scale()
     }
 
-    fn run_index(&self, idx: u64, seed: u64, _tier: Tier, rt: &mut Rt) -> Vec<Violation> {
+    fn run_index(&self, idx: u64, seed: u64, tier: Tier, rt: &mut Rt) -> Vec<Violation> {
         let mut r = Prng::derive(seed, "C06.case", idx);
-        let base = gen_base(&mut r);
+        let base = gen_base(&mut r, tier == Tier::Thorough);
         let n = base.stmts.len();
         let assignments = base.stmts.iter().filter(|s| matches!(s, Expr::Bin(op, _, _) if is_assign(op))).count();
         let spec = SchedSpec::Lowest;
